@@ -63,8 +63,10 @@ mutual
 def isEqual : Term → Term → Bool
   | .value a, .value b => litEq a b
   | .col a, .col b => a == b
-  | .list a, .list b => pyEqLits a b
-  | .dict a, .dict b => pyEqLits (a.map (·.1)) (b.map (·.1)) && pyEqLits (a.map (·.2)) (b.map (·.2))
+  -- after fixes f0db6ca / 8df6c90: element-wise, ordered, by type and value
+  | .list a, .list b => a.length == b.length && (a.zip b).all (fun ab => litEq ab.1 ab.2)
+  | .dict a, .dict b => a.length == b.length &&
+      (a.zip b).all (fun ab => litEq ab.1.1 ab.2.1 && litEq ab.1.2 ab.2.2)
   | .app o1 a1 i1 _, .app o2 a2 i2 _ => o1 == o2 && i1 == i2 && isEqualList a1 a2
   | _, _ => false
 def isEqualList : List Term → List Term → Bool
